@@ -159,7 +159,7 @@ def run(ctx):
     cov_extra = {"route_tables": info}
     if tables is None:
         return {"coverage": {"explanation": "route extraction failed", "discharged": 0}, "violations": [pv], "known": []}
-    binary = build_harness(HARNESS_PKG)
+    binary = build_harness(HARNESS_PKG, dirs=["auth"])
     cases = gen_cases(rng, tables, ctx["tier"])
     t1 = time.time()
     v, k, stats = evaluate(ID, ctx, cases, binary, known_sigs_for(ID))
@@ -254,7 +254,7 @@ def replay(path, wd):
         return 0
     regen_tables(wd)
     coq_make(["Properties/%s.vo" % ID] + COQ_TARGETS)
-    binary = build_harness(HARNESS_PKG)
+    binary = build_harness(HARNESS_PKG, dirs=["auth"])
     out = run_cases(binary, wd, [case], tag="replay")[0]
     res = []
     for st, ob in zip(case["steps"], out.get("obs") or []):
